@@ -175,6 +175,10 @@ func main() {
 		replayMain(o)
 		return
 	}
+	if os.Getenv("C05_ONLY") == "eig" { // development aid: the round-6 stream alone
+		runEigStream(o)
+		os.Exit(0)
+	}
 	// common.NewRng(seed) states of neighbouring seeds are shifts of one another
 	// (state = seed*golden + c, step = golden): derive the stream from one mixed output
 	rng := NewRng(o.Seed).Split()
@@ -201,6 +205,7 @@ func main() {
 	runF32Stream(o, corpus)  // f32.go
 	runTraceStream(o)        // trace.go
 	runHistStreams(o)        // hist.go (round 5: fuelled loop models, InSitu-reuse histories)
+	runEigStream(o)          // eig.go (round 6: eigensystem / backSubstitution recomputed by C05.ModelEig)
 	for _, d := range DenseSweep(rng.Split()) {
 		rn.rw.Count("dense-sweep")
 		rn.iter(d)
@@ -263,7 +268,7 @@ func replayMain(o Opts) {
 	if err := json.Unmarshal(b, &rp); err != nil {
 		Die("replay: %v", err)
 	}
-	if replayF32(b, o) || replayTrace(b, o) || replayHist(b, o) {
+	if replayF32(b, o) || replayTrace(b, o) || replayHist(b, o) || replayEig(b, o) {
 		os.Exit(0)
 	}
 	rn := &runner{
